@@ -430,6 +430,11 @@ impl Ctx {
         I: Iterator<Item = C>,
         F: Fn(&C) -> Outcome,
     {
+        if let Ok(only) = std::env::var("VERIF_LEGS") {
+            if !only.split(',').any(|l| l == leg) {
+                return;
+            }
+        }
         let t0 = Instant::now();
         let mut st = Stats::default();
         let mut first_fail: Option<(C, String, String)> = None;
